@@ -167,6 +167,14 @@ const c01TagForms = `{% if X %}a{% elif X.0 %}b{% else %}c{% endif %}
 {% extends X %}
 {% ssi X %}
 {% import X m %}
+{% for i in z_ints %}{% cycle X as X %}{% endfor %}{% for i in z_ints %}{% cycle X as cy %}{% cycle cy as cy %}{% cycle cy %}{{ cy }}{% endfor %}
+{% set forloop = X %}{% for i in z_ints %}{{ forloop.Counter }}{{ forloop.Parentloop }}{% endfor %}
+{% with forloop=X %}{% for i in z_ints %}{% for j in z_ints %}{{ forloop.Parentloop.Parentloop.Counter }}{% endfor %}{% endfor %}{% endwith %}
+{% for forloop in X %}{% for j in z_ints %}{{ forloop.First }}{% endfor %}{% endfor %}
+{% set block = X %}{% block bb %}{{ block.Super }}{{ block }}{% endblock %}{% set pongo2 = X %}{{ pongo2.version }}
+{{ z_anymap[X] }}{{ X[z_ints] }}{{ X[z_slicekeyarr] }}{{ z_map[X] }}{{ X[z_nilvalueptr] }}{{ z_slicekeyarr in X }}{{ X in z_anymap }}
+{% macro X() %}m{% endmacro %}{{ X() }}{{ X }}
+{% for X in z_ints %}{{ X }}{% endfor %}{% with X=1 %}{{ X }}{% endwith %}{% set X = X %}{{ X }}
 {% if X %}{% include "/inc.tpl" %}{% endif %}{% for i in X %}{% for j in X %}{{ forloop.Parentloop.Counter }}{% endfor %}{% endfor %}`
 
 var c01TagFormList = strings.Split(c01TagForms, "\n")
@@ -563,7 +571,7 @@ func init() {
 		Run:         c01Run,
 		CaseTimeout: 30,
 		Rule: "four workloads in crash-isolated worker processes (panic => violation via recover, process death and hangs via the driver's progress log and watchdogs): " +
-			"(1) complete sweeps: every registered filter (from the verif hook) x every zoo value (about 100 Go values: nil, strings incl. invalid UTF-8, every int/uint/float kind with extremes/NaN/Inf, slices, arrays, maps with string/int/float/bool/named keys, structs with unexported and embedded fields, pointers incl. typed nil, Stringers, time, errors, *Value, functions of accepted and rejected shapes) x 35 parameters through ApplyFilter and {{ v|f:p }}; every zoo value x every resolver step x (quick: a seed-dependent 1/20, thorough: every) second step; 80 tag/operator forms x every zoo value in the argument slot; " +
+			"(1) complete sweeps: every registered filter (from the verif hook) x every zoo value (about 100 Go values: nil, strings incl. invalid UTF-8, every int/uint/float kind with extremes/NaN/Inf, slices, arrays, maps with string/int/float/bool/named keys, structs with unexported and embedded fields, pointers incl. typed nil, Stringers, time, errors, *Value, functions of accepted and rejected shapes) x 35 parameters through ApplyFilter and {{ v|f:p }}; every zoo value x every resolver step x (quick: a seed-dependent 1/20, thorough: every) second step; 88 tag/operator forms x every zoo value in the argument slot; " +
 			"(2) grammar-generated programs over all tags/filters/operators with loader files, 3 contexts, TrimBlocks/LStripBlocks settings, the four Execute entry points; (3) byte-level mutations of the repository's fixtures and of generated programs; (4) 40 resource shapes (deep nesting, long chains, every macro recursion route, cyclic include/extends/import/ssi graphs). " +
 			"Oracle: exactly one of template/error, exactly one of output/error, no panic, no process death, every case finishes within the watchdog. distinct_nontrivial = distinct sweep cells, compiled programs and byte inputs.",
 		MinNontriv:  5000,
